@@ -109,10 +109,52 @@ type grole struct {
 }
 
 type gsched struct {
-	mu    sync.Mutex
-	roles map[int64]*grole
-	run   *genRun
-	ioSeq int
+	mu       sync.Mutex
+	roles    map[int64]*grole
+	run      *genRun
+	ioSeq    int
+	frozen   bool       // a directory image is being taken: no I/O call may start
+	inflight int        // I/O calls between their entry and their exit
+	thaw     *sync.Cond // signalled when frozen is cleared / inflight drops
+}
+
+// ioEnter is called at the entry of every engine I/O call (after the gate, if any): it waits while an image is
+// being taken and then counts the call as in flight, so that a directory image never holds half of a write.
+func (s *gsched) ioEnter() {
+	s.mu.Lock()
+	for s.frozen {
+		s.thaw.Wait()
+	}
+	s.inflight++
+	s.mu.Unlock()
+}
+
+func (s *gsched) ioExit() {
+	s.mu.Lock()
+	s.inflight--
+	s.thaw.Broadcast()
+	s.mu.Unlock()
+}
+
+// freeze stops new I/O calls and waits until none is in flight (bounded: a call that never ends is reported by
+// the driver's watchdogs, not here); unfreeze lets them go on.
+func (s *gsched) freeze() {
+	s.mu.Lock()
+	s.frozen = true
+	deadline := time.Now().Add(20 * time.Second)
+	for s.inflight > 0 && time.Now().Before(deadline) {
+		s.mu.Unlock()
+		time.Sleep(200 * time.Microsecond)
+		s.mu.Lock()
+	}
+	s.mu.Unlock()
+}
+
+func (s *gsched) unfreeze() {
+	s.mu.Lock()
+	s.frozen = false
+	s.thaw.Broadcast()
+	s.mu.Unlock()
 }
 
 func goid() int64 {
@@ -212,9 +254,11 @@ func (s *gsched) handle(ev h.IOEv) {
 		if r.gateIO && ref.D == 0 && ref.X == "data" {
 			s.park(r, ev.Kind+":"+filepath.Base(ev.Path))
 		}
+		s.ioEnter()
 		return
 	}
 	// completed I/O call
+	s.ioExit()
 	s.mu.Lock()
 	mute := r.mute
 	s.ioSeq++
@@ -470,8 +514,10 @@ func (g *genRun) fault(proc bool, x []int, torn bool) {
 	img := filepath.Join(g.en.Work, fmt.Sprintf("gen%05d-i%02d", g.en.dirSeq, g.imgs))
 	os.RemoveAll(img)
 	os.RemoveAll(h.MergePath(img))
+	g.s.freeze() // no I/O call starts and none is in flight while the directories are copied
 	h.CopyImage(g.dir, img, nil, nil)
 	h.CopyImage(h.MergePath(g.dir), h.MergePath(img), nil, nil)
+	g.s.unfreeze()
 	g.dirs = append(g.dirs, img)
 	cuts := []map[string]any{}
 	if !proc {
@@ -709,6 +755,7 @@ func runScript(en *Env, sc *gscript, idx int, stats map[string]int) {
 	cfg := h.Cfg{Index: h.IndexTypes[idx%3], Shards: []int{1, 4, 16}[(idx/3)%3], IO: "std", Limit: int64(2*unit + 40), Sync: sc.Sync}
 	g := &genRun{en: en, cfg: cfg, dir: dir, dirs: []string{dir}, written: map[string]int64{}, synced: map[string]int64{}, nkeys: nkeys, stats: stats, unit: unit}
 	g.s = &gsched{roles: map[int64]*grole{}, run: g}
+	g.s.thaw = sync.NewCond(&g.s.mu)
 	g.e = h.NewEng(dir, en.Work+"/scratch", cfg, u, vs, en.T)
 	defer func() {
 		h.SetIOHandler(nil)
